@@ -23,7 +23,11 @@ META = {
             "to later GCs (gc_after_fork). Tie: programs with repeated fork cycles (prepare_to_fork, join, after_fork) "
             "between GCs on all plans; every MonExit/WorkerLeave/Surrender/SurrenderDone/MonAllExited/GoalCompleted/Respawn "
             "event must be the model's action; the GCs after the fork must again be runs of the model.",
-    "note": "That every worker *does* exit (liveness) is only checked by the watchdog oracle on real runs. hx_gc has no "
+    "note": "That every worker *does* exit is proved under weak fairness (workers_exit_after_goal: once an exit goal is current "
+            "every worker reaches `surrendered`; workers_exit_under_fairness: from a pending Shutdown/StopForFork request with no "
+            "GC requested meanwhile) — the sub-case 'a GC is pending or in progress when the exit request arrives' needs one "
+            "more lemma (the request survives `respond`) and is covered by gc_completes_under_fairness + the watchdog oracle on "
+            "real runs. hx_gc has no "
             "`shutdown` op: the Shutdown goal is covered by the proof (same code path as StopForFork) but not by real runs.",
     "technique": "Lean 4 proof: inductive invariants of an n-thread model; event-log conformance monitor over fork cycles",
     "category": "proof",
